@@ -1,6 +1,6 @@
 (* C01TableProofs.v — every entry of leaf_table is lossless and yields a leaf whose name is the table key. *)
 From V.lib Require Import Base.
-From V.c01 Require Import C01Codec C01Model C01LeafProofs C01Leaf2Proofs C01Leaf3Proofs C01Leaf4Proofs C01Leaf5Proofs.
+From V.c01 Require Import C01Codec C01Model C01LeafProofs C01Leaf2Proofs C01Leaf3Proofs C01Leaf4Proofs C01Leaf5Proofs C01LocalProofs C01EsdsProofs.
 
 Definition entry_ok (e : list N * (hdr -> parser (leaf * rsvT))) : Prop :=
   leaf_lossless (snd e) /\
@@ -56,10 +56,11 @@ Proof.
               | exact lossless_url | exact lossless_avcC | exact lossless_btrt | exact lossless_pasp | exact lossless_colr
               | exact lossless_clap | exact lossless_schm | exact lossless_cslg
               | exact lossless_senc | exact lossless_emsg | exact lossless_elng | exact lossless_kind
-              | exact lossless_hvcC | exact lossless_subs ];
+              | exact lossless_hvcC | exact lossless_subs | exact lossless_esds ];
     intros h r l rsv r' Hn H;
     try (apply (avcC_name _ _ _ _ _ H));
     try (apply (hvcC_name _ _ _ _ _ H));
+    try (apply (esds_name _ _ _ _ _ H));
     try (apply (elng_name _ _ _ _ _ H));
     try (unfold dec_mdat in H; destruct (rdB (payload_len h) r) as [[x r1]| | |]; injection H; intros; subst; reflexivity);
     unfold dec_ftyp, dec_free, dec_mfhd, dec_tfhd, dec_tfdt, dec_trun, dec_mvhd, dec_tkhd, dec_sidx, dec_trex, dec_mdhd,
